@@ -6,8 +6,11 @@ proof   Props/C13 (lexer model, action table, unparser definitions):
           simulates the lexer without it step by step (equal tokens up to `hidden`, equal decisions, equal errors);
           actions_transparent: a semantic action without capture on erased arguments yields the erasure of its result;
           comments_transparent (FULL): for all texts erase(parse(text, True)) = parse(text, False), same errors;
-          comments_faithful_*: what `hidden` / `@comments` contain; no_comment_attached_twice (kernel decision over
-          Gen.Actions); line_comment_followed_by_newline (kernel decision over Gen.Defs / Gen.Rules).
+          comments_faithful (end to end, ghost derivation trees): every `@comments` of the accepted tree is set_comments
+          of a shifted token whose comments are comment tokens of the source; comments_attached_once: with multiplicity
+          (no token's comments reach two nodes); source order / disjointness across tokens only from the hypothesis
+          ShiftedOrdered (comments_in_source_order_partial); no_comment_attached_twice, action_slots_used_once (kernel
+          decisions over Gen.Actions); line_comment_followed_by_newline (kernel decision over Gen.Defs / Gen.Rules).
 tie     S2 (text -> tree with positions, token maps and comments, capture off and on) on the commented inputs;
         S3/S4 (pretty printers) on the commented trees.
 judge   on the implementation, for base programs (G1 manifests, G2 grammar-generated, hand-written ASI / `/` / restricted
@@ -653,7 +656,9 @@ def run(ctx):
     ctx.trusted += ['Lean 4.33 kernel', 'translators g_tables / g_actions / g_lexdata / g_defs / g_rules',
                     'Spec.Es5Lex / Spec.Es5Parse (comment list, trees) as the independent reference',
                     'the end-to-end statement comments_transparent is proved for the composed model (lexer + LR + actions) '
-                    'with no hypothesis; faithfulness is proved at the lexer and set_comments levels, not end-to-end']
+                    'with no hypothesis; faithfulness is proved end to end for the accepted tree (comments_faithful, '
+                    'comments_attached_once) except the source order / disjointness of the comments of different tokens along whole '
+                    'runs (hypothesis ShiftedOrdered of comments_in_source_order_partial; judged on the implementation by J2)']
     ctx.assumptions += ['well-formed Unicode scalar sequences', 'pretty printer only (minify printers drop comments by design)']
     spec = specclient.Spec(ctx)
     known_witnesses(ctx, spec)
